@@ -371,8 +371,8 @@ def main():
                           "the document or raised" % len(ref_columns()))
   rep.coverage["ref_columns_checked"] = len(ref_columns())
   from checks import C02
-  C02.tune_explore()
-  explore.explore(rep, "checks.C09", "C09Monitor", n_quick=128, budget_quick_s=30)
+  C02.tune_explore(4)
+  explore.explore(rep, "checks.C09", "C09Monitor", n_quick=112, budget_quick_s=22)
   return rep.finish()
 
 
